@@ -2,6 +2,7 @@
 Require Import MV.Base.Prelude MV.Base.CInt MV.Base.Index MV.Base.BorderSpec.
 Require Import MV.Gen.Scalar_gen MV.Model.Filter MV.Model.Morph.
 Require Import MV.Proof.ScalarSat MV.Proof.MorphProof MV.Proof.MorphLaws MV.Proof.MorphBounds MV.Proof.GreyLaws MV.Proof.BinaryDuality.
+Require Import MV.Model.MorphFast MV.Proof.MorphFastProof MV.Proof.FastLaws.
 
 (* subm (GENERATED from the C++ loop body) is exact subtraction clamped to the dtype range:
    every width, both signednesses, every pair of values *)
@@ -147,3 +148,28 @@ Theorem C02_binary_duality_for_shrink_closed_elements : forall sh bc, shape_ok s
   (forall e, In e (entries true bc) -> length (fst e) = length sh) -> shrink_closedb bc = true ->
   forall f, bimg sh f -> bdil sh bc f = bnot (bero sh bc (bnot f)).
 Proof. exact binary_duality_usual. Qed.
+
+(* The same laws on the 2-D boolean FAST PATH of _morph.cpp (the raw-pointer kernel that serves C-contiguous 2-D boolean
+   images): opening and closing computed with both passes on that path are the generic opening and closing, for every element
+   (even-sized, asymmetric, without centre) ... *)
+Theorem C02_fast_path_open_close_are_the_generic_ones : forall Ny Nx By Bx bc, shape_ok [Ny; Nx] -> shape bc = [By; Bx] ->
+  1 <= By -> 1 <= Bx -> (forall e, In e (entries true bc) -> length (fst e) = length [Ny; Nx]) ->
+  forall f, bimg [Ny; Nx] f ->
+  fopen [Ny; Nx] bc f = bopen [Ny; Nx] bc f /\ fclose [Ny; Nx] bc f = bclose [Ny; Nx] bc f.
+Proof.
+  intros Ny Nx By Bx bc Hs Hb H1 H2 He f Hf. split;
+    [eapply fopen_is_bopen | eapply fclose_is_bclose]; eauto.
+Qed.
+
+(* ... hence anti-extensive / extensive, idempotent and increasing there too *)
+Theorem C02_fast_path_laws : forall Ny Nx By Bx bc, shape_ok [Ny; Nx] -> shape bc = [By; Bx] ->
+  1 <= By -> 1 <= Bx -> (forall e, In e (entries true bc) -> length (fst e) = length [Ny; Nx]) ->
+  forall f g, bimg [Ny; Nx] f -> bimg [Ny; Nx] g ->
+  le_list (size [Ny; Nx]) (fopen [Ny; Nx] bc f) f /\
+  le_list (size [Ny; Nx]) f (fclose [Ny; Nx] bc f) /\
+  fopen [Ny; Nx] bc (fopen [Ny; Nx] bc f) = fopen [Ny; Nx] bc f /\
+  fclose [Ny; Nx] bc (fclose [Ny; Nx] bc f) = fclose [Ny; Nx] bc f /\
+  (le_list (size [Ny; Nx]) f g ->
+     le_list (size [Ny; Nx]) (fopen [Ny; Nx] bc f) (fopen [Ny; Nx] bc g) /\
+     le_list (size [Ny; Nx]) (fclose [Ny; Nx] bc f) (fclose [Ny; Nx] bc g)).
+Proof. intros Ny Nx By Bx bc Hs Hb H1 H2 He f g. eapply fast_open_close_laws; eauto. Qed.
